@@ -481,7 +481,10 @@ luaL_setfuncs({LUA_state_var}, {LUA_class_reg}, 0);
                 #                fmt_result.c_member = '.'
                 fmt_result.cxx_member = "."
                 fmt_result.cxx_addr = "&"
-            if result_typemap.cxx_to_c:
+            if self.language == "c":
+                # No conversion between a C library and the C wrapper.
+                fmt_result.c_var = fmt_result.cxx_var
+            elif result_typemap.cxx_to_c:
                 fmt_result.c_var = wformat(
                     result_typemap.cxx_to_c, fmt_result
                 )  # if C++
